@@ -84,7 +84,17 @@ fn private_is_dirty(
 
     if f.failed_runid.is_some() {
         log_debug!("{}-- DIRTY (failed last time)\n", depth);
-        return Ok(Dirtiness::Dirty);
+        // A target that records a checksum has to be rebuilt, but what depends on it need
+        // not be: that is decided by the checksum once it has been rebuilt (the recorded
+        // one is that of its last successful build, which is what the dependents were
+        // built from).  This matters since a build in progress is marked "failed in this
+        // run" until it is recorded: another job of the same run that looks at a
+        // dependent meanwhile must wait for the outcome, not rebuild the dependent at once.
+        return Ok(if !f.checksum().is_empty() {
+            Dirtiness::NeedTargets(vec![f.into_owned()])
+        } else {
+            Dirtiness::Dirty
+        });
     }
     match f.changed_runid {
         None => {
